@@ -127,4 +127,15 @@ CLAIMS = {
         design_ref='DESIGN.md section 6 C15; rules R-FLAG-TRUTH, R-EXTRA-MARK, R-COLFILL, R-STAIRCASE, R-NULLFEED, R-PURE-PCHK',
         note='The lemma (sum of all rows of H) is the only non-mechanical step and is written in DESIGN.md. ' + BASE,
         technique='truth-table enumeration over branch conditions, counting rule, affine loop-range sets, guard/dominance rules'),
+    'C13': dict(
+        text='Kernel extent analysis of the seven symbol kernels: an abstract interpreter over their IR (exact integers for size-derived '
+             'scalars, (buffer, offset) pointers, per-nibble XOR-sets of provenance atoms for data -- no data value is computed, no '
+             'library code runs) yields per size class and operand count the exact sets of bytes loaded/stored per buffer and the '
+             'provenance formula of every stored byte, compared with the byte-wise definition; a syntactic quasi-affinity rule makes the '
+             'finite range (sizes 0..64, operand counts 0..20; twice that in the thorough tier) sufficient for all sizes, counts and '
+             'alignments.',
+        design_ref='DESIGN.md section 6 C13 (A10 kernel extent analysis); rules R-KEA, R-KERNEL-SHAPE, R-TABLES',
+        note='Whole statement of C13 given R-TABLES for the table contents (the packed GF(2^4) table identity is applied by the analysis). '
+             'Unaligned 64-bit accesses are a platform matter. A kernel the interpreter cannot follow gives ANALYSIS-BROKEN. ' + BASE,
+        technique='abstract interpretation over IR with a byte-provenance domain + quasi-affine periodicity argument'),
 }
